@@ -658,7 +658,7 @@ fn apply_cert(f: &Tab, perm: &[usize], mask: usize) -> Tab {
     })
 }
 
-fn orbit_min(f: &Tab, perms: bool, flips: bool) -> Tab {
+pub fn orbit_min(f: &Tab, perms: bool, flips: bool) -> Tab {
     let n = f.n;
     let ps = if perms { permutations(n) } else { vec![(0..n).collect()] };
     let nm = if flips { 1usize << (n + 1) } else { 1 };
@@ -1058,6 +1058,19 @@ fn c12(t: &[&str], out: &str) -> R {
         return Ok(false);
     }
     match t[1] {
+        "cmp" => {
+            let (a, b) = (parse_raw_cube(t[2]).unwrap(), parse_raw_cube(t[3]).unwrap());
+            if a.0 & a.1 != 0 || b.0 & b.1 != 0 {
+                // contradictory masks are normalised by the constructor: not judged here
+                return Ok(false);
+            }
+            let o = a.cmp(&b);
+            let want = format!("ok {} {}", show_bool(a == b), match o { std::cmp::Ordering::Less => "lt", std::cmp::Ordering::Equal => "eq", _ => "gt" });
+            if out != want {
+                return Err(format!("cube eq/cmp: expected `{}`, implementation says `{}`", want, out));
+            }
+            Ok(true)
+        }
         "isconstant" => {
             let (p, q) = parse_raw_cube(t[2]).unwrap();
             let want = (p == 0 && q == 0) || (p & q != 0);
@@ -1279,6 +1292,17 @@ fn c13(t: &[&str], out: &str) -> R {
             let want = format!("ok {:x}/{}", v1 ^ v2, show_bool(x1 != x2));
             if out != want {
                 return Err(format!("ecube xor: expected `{}`, implementation says `{}`", want, out));
+            }
+            Ok(true)
+        }
+        ("ecube", "cmp") => {
+            // equal exactly when the two terms are the same (vars, xnor) pair, i.e. the same function;
+            // the order is the lexicographic order of (vars, xnor)
+            let (a, b) = (parse_raw_ecube(t[2]), parse_raw_ecube(t[3]));
+            let o = a.cmp(&b);
+            let want = format!("ok {} {}", show_bool(a == b), match o { std::cmp::Ordering::Less => "lt", std::cmp::Ordering::Equal => "eq", _ => "gt" });
+            if out != want {
+                return Err(format!("ecube eq/cmp: expected `{}`, implementation says `{}`", want, out));
             }
             Ok(true)
         }
